@@ -94,7 +94,9 @@ UnsubStim(tr, u) == IF \E i \in 1..Len(tr) : IsUnsubStim(tr[i], u) THEN CHOOSE i
 LeafSubsBefore(tr, su, id) == Cardinality({ <<i, j>> \in (1..(su - 1)) \X (1..8) : j <= Len(tr[i].obs) /\ tr[i].obs[j].o = "probe" /\ tr[i].obs[j].k = "subscribed" /\ tr[i].obs[j].u = id })
 \* "ok" | "bad" | "na" (outside the domain of the definition: reactions, ill-formed input, subjects, ambiguous instance numbers, divergence)
 RefVerdict(tr, root, reacts) ==
-  IF ~(RefDomain(root) /\ TermWF(root) /\ AllFinOk(tr) /\ ~reacts /\ WFInput(Arr(tr))) THEN "na"
+  \* a panic inside the library on well-formed input within the domain of the definition is not "the function the definition gives"
+  IF RefDomain(root) /\ TermWF(root) /\ ~reacts /\ WFInput(Arr(tr)) /\ (\E i \in 1..Len(tr) : tr[i].fin = "panic") THEN "bad"
+  ELSE IF ~(RefDomain(root) /\ TermWF(root) /\ AllFinOk(tr) /\ ~reacts /\ WFInput(Arr(tr))) THEN "na"
   \* inner probe-2 instances are numbered in creation order across ALL subscribers: "k-th outer item = instance k" is the real
   \* numbering only while one sink subscribes (or nothing is ever sent to an inner probe)
   ELSE IF AnyProbe2(root) /\ ~OneSink(tr) /\ (\E i \in 1..Len(tr) : Arr(tr)[i].s = 2) THEN "na"
@@ -166,7 +168,8 @@ SbjRun(tr, i, s, kind, root) ==
        /\ (tr[i].cnt # <<>> /\ tr[i].cnt[1] # -1 => tr[i].cnt[1] = Cardinality(r.s.live))       \* holds exactly the current observers
        /\ SbjRun(tr, i + 1, r.s, kind, root)
 C10verdict(tr, root, c) ==
-  IF ~(SubjRoot(root) /\ Len(c.sbj) >= 1 /\ ~HasReact(c) /\ AllFinOk(tr)) THEN "na"
+  IF SubjRoot(root) /\ Len(c.sbj) >= 1 /\ ~HasReact(c) /\ (\E i \in 1..Len(tr) : tr[i].fin = "panic") THEN "bad"      \* a panic is no delivery
+  ELSE IF ~(SubjRoot(root) /\ Len(c.sbj) >= 1 /\ ~HasReact(c) /\ AllFinOk(tr)) THEN "na"
   ELSE IF SbjRun(tr, 1, Sbj0(c.sbj[1]), c.sbj[1], root) THEN "ok" ELSE "bad"
 
 \* ---------------------------------------------------------------- C13: connectables share one source subscription
@@ -196,7 +199,8 @@ SrcEnded(tr, i, src, id) ==
   \/ \E j \in 1..(i - 1) : tr[j].st.k = "emit" /\ tr[j].st.a = id /\ tr[j].st.e \in {"e", "c"}
                            /\ \E q \in 1..Len(tr[j].obs) : tr[j].obs[q].o = "probe" /\ tr[j].obs[q].k = "issub" /\ tr[j].obs[q].v = 1
 C13verdict(tr, root, c) ==
-  IF ~(root.op = "conn" /\ Len(c.conn) >= 1 /\ ~HasReact(c) /\ AllFinOk(tr)) THEN "na"
+  IF root.op = "conn" /\ Len(c.conn) >= 1 /\ ~HasReact(c) /\ (\E i \in 1..Len(tr) : tr[i].fin = "panic") THEN "bad"
+  ELSE IF ~(root.op = "conn" /\ Len(c.conn) >= 1 /\ ~HasReact(c) /\ AllFinOk(tr)) THEN "na"
   ELSE LET kind == c.conn[1].kind
            src == c.conn[1].term
            id == SrcId(src)
